@@ -1447,12 +1447,27 @@ class IRGenerator:
                             *loc)
                     if isinstance(env[type_name], Environment):
                         # Handle reference to field in imported namespace.
-                        namespace_name, type_name, field_name = val.split('.', 2)
+                        namespace_name = type_name
+                        type_name, _, field_name = field_name.partition('.')
+                        if not field_name or type_name not in env[namespace_name]:
+                            raise InvalidSpec(
+                                'Bad doc reference to field %s of '
+                                'unknown type %s.' %
+                                (field_name, quote(namespace_name + '.' + type_name)),
+                                *loc)
                         data_type_to_check = env[namespace_name][type_name]
                     elif isinstance(env[type_name], Alias):
                         data_type_to_check = env[type_name].data_type
                     else:
                         data_type_to_check = env[type_name]
+                    while isinstance(data_type_to_check, Alias):
+                        data_type_to_check = data_type_to_check.data_type
+                    if not isinstance(data_type_to_check, (Struct, Union)):
+                        raise InvalidSpec(
+                            'Bad doc reference to field %s of %s, which is '
+                            'not a struct or union.' %
+                            (quote(field_name), quote(type_name)),
+                            *loc)
                     if not any(field.name == field_name
                                for field in data_type_to_check.all_fields):
                         raise InvalidSpec(
@@ -1460,7 +1475,11 @@ class IRGenerator:
                             *loc)
                 else:
                     # Referring to a field that's a member of this type
-                    assert type_context is not None
+                    if type_context is None:
+                        raise InvalidSpec(
+                            'Bad doc reference to field %s: outside of a '
+                            'struct or union, the type must be named.' %
+                            quote(val), *loc)
                     if not any(field.name == val
                                for field in type_context.all_fields):
                         raise InvalidSpec(
@@ -1479,7 +1498,7 @@ class IRGenerator:
                 if '.' in val:
                     # Handle reference to route in imported namespace.
                     namespace_name, val = val.split('.', 1)
-                    if namespace_name not in env:
+                    if not isinstance(env.get(namespace_name), Environment):
                         raise InvalidSpec(
                             "Unknown doc reference to namespace '%s'." %
                             namespace_name, *loc)
@@ -1487,7 +1506,10 @@ class IRGenerator:
                 else:
                     env_to_check = env
 
-                route_name, version = parse_route_name_and_version(val)
+                try:
+                    route_name, version = parse_route_name_and_version(val)
+                except ValueError as e:
+                    raise InvalidSpec('Bad doc reference to route: %s.' % e, *loc)
                 if route_name not in env_to_check:
                     raise InvalidSpec(
                         'Unknown doc reference to route {}.'.format(quote(route_name)), *loc)
@@ -1503,7 +1525,7 @@ class IRGenerator:
                 if '.' in val:
                     # Handle reference to type in imported namespace.
                     namespace_name, val = val.split('.', 1)
-                    if namespace_name not in env:
+                    if not isinstance(env.get(namespace_name), Environment):
                         raise InvalidSpec(
                             "Unknown doc reference to namespace '%s'." %
                             namespace_name, *loc)
